@@ -243,3 +243,385 @@ def first_diff(outs_a, metas_a, outs_b, metas_b):
         if metas_a[i] != metas_b[i]:
             return i, "metadata", dict(step=i, impl=repr(metas_a[i]), model=repr(metas_b[i]))
     return None
+
+
+# ---------------------------------------------------------------- checks
+CLAUSE = {1: "max_steps_not_stopped", 2: "failure_not_stopped", 3: "best_stopped", 4: "stopped_inside_topk", 5: "same_budget",
+          6: "differs_from_reference", 9: "protocol"}
+
+
+def enc_metas(case, metas):
+    """metadata of all jobs after one step -> (rung bindings per job, completed codes)"""
+    return [[[r, [] if z is None else [z]] for r, z in sorted(rungs.items())] for rungs, _ in metas], [c for _, c in metas]
+
+
+def run_monitor(case, kind, ops, outs, metas):
+    eops = enc_ops(case, ops)
+    items = []
+    for eo, o, mt in zip(eops, outs, metas):
+        m, c = enc_metas(case, mt)
+        items.append([eo, 2 if o is None else int(o), m, c])
+    return model().call(F_MON, [params_vec(case, kind), case["njobs"], items])
+
+
+def model_kind(case):
+    return case["stopper"]  # "median" = the repaired rule (KMedian)
+
+
+def describe(case, ops, outs):
+    n = case["njobs"]
+    early = 0
+    nrec = [0] * n
+    last = [None] * n
+    seen = {}
+    promoted2 = False
+    for op, o in zip(ops, outs):
+        j = op[1]
+        if op[0] == "r":
+            nrec[j] = op[2]
+            last[j] = op[3]
+            if op[3] is not None:
+                seen[op[2]] = seen.get(op[2], 0) + 1
+        else:
+            if o and last[j] is not None and nrec[j] < case["max_steps"]:
+                early += 1
+            if o is False and seen.get(nrec[j], 0) >= 2:
+                promoted2 = True
+    desc = ["stopper=%s" % case["stopper"], "njobs=%d" % n, "max_steps=%d" % case["max_steps"], "early_stops=%s" % (early if early < 3 else "3+"),
+            "gran=%s" % case.get("gran", "op"), "family=%s" % case.get("family", "?"),
+            "failures=%s" % any(z is None for c in case.get("curves", []) for z in c)]
+    if case["stopper"] in ("asha", "median"):
+        desc.append("%s:min_comp=%d" % (case["stopper"], case.get("min_comp", 0)))
+    if case["stopper"] == "asha":
+        desc.append("rf=%d" % case.get("rf", 3))
+    if case["stopper"] == "median":
+        desc.append("interval=%d" % case.get("interval", 1))
+    return desc, (early > 0 and promoted2)
+
+
+def judge(case, ops, outs, metas, oracle=True):
+    kind = model_kind(case)
+    desc, nt = describe(case, ops, outs)
+    res = dict(ok=True, kind="oracle", clause="", nontrivial=nt, desc=desc, sig={"stopper": case["stopper"], "f16_median_lag": False})
+    mo, mm = run_model(case, kind, ops)
+    d = first_diff(outs, metas, mo, mm)
+    if case["stopper"] == "median" and d is not None:
+        # does the implementation behave exactly like the MedianStopper of the pinned tree (rung index lags)?
+        oo, om = run_model(case, "median_old", ops)
+        if first_diff(outs, metas, oo, om) is None:
+            res["sig"]["f16_median_lag"] = True
+    if oracle:
+        v = run_monitor(case, kind, ops, outs, metas)
+        if v:
+            step, c = v
+            return dict(res, ok=False, clause=CLAUSE.get(c, "clause_%d" % c),
+                        detail=dict(step=step, op=ops[step], impl_out=outs[step], ops=ops, outs=outs, model_outs=mo,
+                                    metadata_after=repr(metas[step])))
+    if d is not None:
+        i, clause, det = d
+        return dict(res, ok=False, kind="corr", clause=clause, detail=dict(det, op=ops[i], ops=ops, impl_outs=outs, model_outs=mo))
+    return res
+
+
+def check_proto(case):
+    ops, outs, metas = run_protocol(case)
+    return judge(case, ops, outs, metas, oracle=True)
+
+
+def check_free(case):
+    ops, outs, metas = run_free(case)
+    r = judge(case, ops, outs, metas, oracle=False)
+    r["nontrivial"] = any(o for o in outs) and any(o is False for o in outs)
+    return r
+
+
+# ---------------------------------------------------------------- generators
+FAMILIES = ["monotone", "crossing", "constant", "noisy", "plateau"]
+
+
+def gen_curve(rng, family, T, j, n):
+    if family == "monotone":
+        a, b = rng.randint(-40, 40), rng.randint(1, 6)
+        return [a + b * t for t in range(1, T + 1)]
+    if family == "crossing":  # late bloomers: low start, steep slope, against early leaders that flatten
+        if j % 2 == 0:
+            a, b = rng.randint(20, 40), rng.randint(0, 2)
+        else:
+            a, b = rng.randint(-20, 10), rng.randint(3, 9)
+        return [a + b * t for t in range(1, T + 1)]
+    if family == "constant":  # many exact ties
+        c = rng.choice([0, 0, 1, 1, 2, -1])
+        return [c] * T
+    if family == "noisy":
+        v, out = rng.randint(-10, 10), []
+        for _ in range(T):
+            v += rng.randint(-4, 5)
+            out.append(v)
+        return out
+    if family == "plateau":  # saturating: a - c // t
+        a, c = rng.randint(0, 60), rng.randint(1, 60)
+        return [a - c // t for t in range(1, T + 1)]
+    raise ValueError(family)
+
+
+def gen_params(rng, stopper, tier):
+    ms = rng.choice([4, 9, 27] if tier != "search" else [4, 4, 9])
+    c = dict(stopper=stopper, max_steps=ms, scale=rng.choice([0, 2, 3]))
+    c["eps"] = rng.choice(["default", "default", [0, 0], [1, 3], [3, 3]])
+    if c["eps"] != "default":
+        c["scale"] = 3
+    if stopper == "asha":
+        c.update(min_steps=rng.choice([1, 1, 1, 2, 3]), rf=rng.choice([2, 3, 4]), mesr=rng.choice([0, 0, 0, 1]),
+                 min_comp=rng.choice([0, 0, 0, 0, 1, 2, 3]), min_full=rng.choice([0, 0, 0, 1, 2]))
+    elif stopper == "median":
+        c.update(min_steps=rng.choice([1, 1, 2, 3, 5]), interval=rng.choice([1, 2, 3]), min_comp=rng.choice([0, 1, 2, 3]))
+    elif stopper == "const":
+        c.update(stop_step=rng.randint(1, ms + 2))
+    return c
+
+
+def gen_sched(rng, n, T, style):
+    if style == "sequential":
+        return [], "step"
+    if style == "roundrobin":
+        return [j for _ in range(T + 1) for j in range(n)], "step"
+    if style == "random_step":
+        return [rng.randrange(n) for _ in range(rng.randint(1, n * (T + 1)))], "step"
+    if style == "random_op":
+        return [rng.randrange(n) for _ in range(rng.randint(1, 2 * n * (T + 1)))], "op"
+    if style == "staggered":  # evaluation k starts when evaluation k-1 has made d steps
+        d = rng.randint(1, max(1, T // 2))
+        s = []
+        for k in range(n):
+            s += [k] * d
+            for k2 in range(k):
+                s += [k2]
+        return s, "step"
+    if style == "all_record_then_stop":  # every evaluation records, then every evaluation asks
+        s = []
+        for _ in range(T + 1):
+            s += list(range(n)) + list(range(n))
+        return s, "op"
+    raise ValueError(style)
+
+
+STYLES = ["sequential", "roundrobin", "random_step", "random_op", "staggered", "all_record_then_stop"]
+
+
+def add_failures(rng, curves, T, mode):
+    if mode == 0:
+        return
+    for c in curves:
+        if rng.random() < (0.25 if mode == 1 else 0.7):
+            c[rng.randrange(min(len(c), T))] = None
+
+
+def gen_proto(stopper, count):
+    def gen(rng, tier):
+        k = count if tier != "search" else count * 3
+        for i in range(k):
+            c = gen_params(rng, stopper, tier)
+            T = c["max_steps"]
+            n = rng.randint(1, 6) if tier != "search" else rng.randint(1, 3)
+            fam = FAMILIES[i % len(FAMILIES)]
+            c["family"] = fam
+            curves = [gen_curve(rng, fam, T + 3, j, n) for j in range(n)]
+            add_failures(rng, curves, T, (i // len(FAMILIES)) % 3)
+            sched, gran = gen_sched(rng, n, T, STYLES[(i // 3) % len(STYLES)])
+            c.update(njobs=n, curves=curves, sched=sched, gran=gran, lazy=rng.random() < 0.25, drain=True)
+            yield c
+    return gen
+
+
+def multiset_perms(counts):
+    """all sequences containing job j exactly counts[j] times"""
+    total = sum(counts)
+    cur = []
+
+    def rec():
+        if len(cur) == total:
+            yield list(cur)
+            return
+        for j in range(len(counts)):
+            if counts[j]:
+                counts[j] -= 1
+                cur.append(j)
+                yield from rec()
+                cur.pop()
+                counts[j] += 1
+
+    return rec()
+
+
+# curve sets for the exhaustive streams: (family, curves) ; budgets 1..4 (+ slack)
+EXH_CURVES = [
+    ("crossing", [[8, 9, 10, 11, 12, 12], [2, 6, 12, 20, 30, 30], [5, 5, 5, 30, 40, 40]]),
+    ("constant", [[1, 1, 1, 1, 1, 1], [1, 1, 1, 1, 1, 1], [0, 1, 2, 1, 0, 0]]),
+    ("failures", [[4, 7, None, 9, 9, 9], [5, 6, 8, 9, 10, 10], [6, None, 1, 1, 1, 1]]),
+    ("monotone", [[1, 2, 3, 4, 5, 6], [3, 5, 7, 9, 11, 13], [2, 3, 4, 5, 6, 7]]),
+]
+
+
+def completions(case):
+    """all schedules of a block: the prefix followed by every ordering of the remaining picks"""
+    counts = list(case["counts"])
+    for j in case["prefix"]:
+        counts[j] -= 1
+    for rest in multiset_perms(counts):
+        yield case["prefix"] + rest
+
+
+def gen_exhaustive(stopper, tier_sets):
+    """every interleaving (at whole-step granularity) of 3 evaluations x max_steps 4, and (at operation granularity)
+    of 2 evaluations x max_steps 3, for a small grid of parameters and curve sets.  One case = one BLOCK: all
+    interleavings that start with the same prefix (81 blocks of <= 630 step-level interleavings; 4 blocks of <= 252
+    operation-level ones)."""
+    def gen(rng, tier):
+        if tier == "search":
+            return
+        for prm in tier_sets[tier]:
+            for fam, curves in EXH_CURVES[: (4 if tier == "thorough" else prm.get("_ncurves", 2))]:
+                base = dict(stopper=stopper, scale=0, eps=prm.get("eps", "default"), family=fam, lazy=False, drain=False)
+                base.update({k: v for k, v in prm.items() if not k.startswith("_")})
+                for pre in itertools.product(range(3), repeat=4):
+                    yield dict(base, max_steps=4, njobs=3, curves=curves, counts=[4, 4, 4], prefix=list(pre), gran="step")
+                for pre in itertools.product(range(2), repeat=2):
+                    yield dict(base, max_steps=3, njobs=2, curves=curves[:2], counts=[6, 6], prefix=list(pre), gran="op")
+    return gen
+
+
+def check_block(case):
+    """runs every interleaving of the block; reports the first failing one"""
+    first, runs, nt = None, 0, False
+    desc = None
+    for s in completions(case):
+        c = {k: v for k, v in case.items() if k not in ("counts", "prefix")}
+        c["sched"] = s
+        r = check_proto(c)
+        runs += 1
+        nt = nt or r.get("nontrivial")
+        desc = r["desc"]
+        if not r["ok"]:
+            r["detail"] = dict(sched=s, inner=r.get("detail"))
+            r["desc"] = desc + ["block"]
+            return r
+        first = first or r
+    return dict(first, nontrivial=nt, desc=desc + ["block", "block_runs=%d" % runs])
+
+
+def shrink_block(case):
+    if "prefix" not in case:
+        yield from shrink_proto(case)
+        return
+    for s in completions(case):  # find the failing interleaving of the block, continue with the plain case
+        c = {k: v for k, v in case.items() if k not in ("counts", "prefix")}
+        c["sched"] = s
+        if not check_proto(c)["ok"]:
+            yield c
+            return
+
+
+def check_any(case):
+    return check_block(case) if "prefix" in case else check_proto(case)
+
+
+EXH_ASHA = {
+    "quick": [dict(rf=2, min_steps=1, _ncurves=2), dict(rf=3, min_steps=2, eps=[0, 0], _ncurves=1)],
+    "thorough": [dict(rf=rf, min_steps=m, mesr=e, min_full=(1 if (rf + m + e) % 3 == 0 else 0)) for rf in (2, 3, 4) for m in (1, 2) for e in (0, 1)],
+}
+EXH_MEDIAN = {
+    "quick": [dict(min_comp=0, interval=1, min_steps=1, _ncurves=1), dict(min_comp=2, interval=1, min_steps=1, _ncurves=1),
+              dict(min_comp=3, interval=2, min_steps=1, _ncurves=1)],
+    "thorough": [dict(min_comp=mc, interval=iv, min_steps=(2 if (mc + iv) % 4 == 0 else 1)) for mc in (0, 1, 2, 3) for iv in (1, 2, 3)],
+}
+
+
+def gen_free(count):
+    """arbitrary budgets (jumps, repeats, decreasing), operations after a stop; every stopped() directly follows a
+    record() of the same evaluation (a second stopped() in a row can raise IndexError in the halving stopper)"""
+    def gen(rng, tier):
+        k = count if tier != "search" else count // 4
+        for i in range(k):
+            stopper = ["asha", "median", "const", "idle"][i % 4] if i % 8 else rng.choice(["asha", "median"])
+            c = gen_params(rng, stopper, tier)
+            n = rng.randint(1, 4)
+            ops, pend = [], [False] * n
+            for _ in range(rng.randint(1, 40)):
+                j = rng.randrange(n)
+                if pend[j]:
+                    ops.append(["s", j])
+                    pend[j] = False
+                else:
+                    b = rng.choice([rng.randint(1, c["max_steps"] + 2), rng.randint(1, 4)])
+                    z = None if rng.random() < 0.07 else rng.randint(-30, 30)
+                    ops.append(["r", j, b, z])
+                    pend[j] = rng.random() < 0.85  # sometimes two record() in a row
+            c.update(njobs=n, ops=ops, lazy=rng.random() < 0.3, family="free")
+            yield c
+    return gen
+
+
+# ---------------------------------------------------------------- shrinkers
+def drop_job(case, j):
+    n = case["njobs"]
+    c = dict(case, njobs=n - 1)
+    if "curves" in case:
+        c["curves"] = case["curves"][:j] + case["curves"][j + 1:]
+        c["sched"] = [x - (x > j) for x in case["sched"] if x != j]
+    if "ops" in case:
+        c["ops"] = [[o[0], o[1] - (o[1] > j)] + o[2:] for o in case["ops"] if o[1] != j]
+    return c
+
+
+def shrink_common(case):
+    n = case["njobs"]
+    if n > 1:
+        for j in range(n):
+            yield drop_job(case, j)
+    for k, v in (("lazy", False), ("min_full", 0), ("mesr", 0), ("min_steps", 1), ("eps", [0, 0]), ("interval", 1), ("min_comp", 0)):
+        if k in case and case[k] != v and not (k == "eps" and case.get("scale", 0) < 0):
+            yield dict(case, **{k: v})
+    if case["max_steps"] > 2:
+        yield dict(case, max_steps=case["max_steps"] - 1)
+
+
+def shrink_proto(case):
+    yield from shrink_common(case)
+    s = case["sched"]
+    if case.get("drain", True):
+        yield dict(case, drain=False)
+    if s:
+        yield dict(case, sched=s[: len(s) // 2])
+        for i in range(len(s)):
+            yield dict(case, sched=s[:i] + s[i + 1:])
+    curves = case["curves"]
+    for j, c in enumerate(curves):
+        if len(c) > 1:
+            yield dict(case, curves=curves[:j] + [c[:-1]] + curves[j + 1:])
+        for t, z in enumerate(c):
+            for w in (0, 1, (z // 2 if z else 0)):
+                if z is None or w != z and abs(w) < abs(z):
+                    yield dict(case, curves=curves[:j] + [c[:t] + [w] + c[t + 1:]] + curves[j + 1:])
+                    break
+
+
+def shrink_free(case):
+    yield from shrink_common(case)
+    ops = case["ops"]
+    for i in range(len(ops)):
+        yield dict(case, ops=ops[:i] + ops[i + 1:])
+
+
+# ---------------------------------------------------------------- streams
+def streams(tier):
+    th = tier == "thorough"
+    n = 6000 if th else 700
+    return [
+        Stream("asha_protocol", gen_proto("asha", n), check_proto, shrink_proto, timeout=60),
+        Stream("median_protocol", gen_proto("median", n), check_proto, shrink_proto, timeout=60),
+        Stream("simple_protocol", lambda rng, tier: itertools.chain(gen_proto("idle", n // 10)(rng, tier), gen_proto("const", n // 5)(rng, tier)),
+               check_proto, shrink_proto, timeout=60),
+        Stream("asha_exhaustive", gen_exhaustive("asha", EXH_ASHA), check_any, shrink_block, timeout=300),
+        Stream("median_exhaustive", gen_exhaustive("median", EXH_MEDIAN), check_any, shrink_block, timeout=300),
+        Stream("free_ops", gen_free(4000 if th else 600), check_free, shrink_free, timeout=60),
+    ]
